@@ -124,7 +124,7 @@ def exactness_check(pid: str, part: str) -> int:
                               "detail": "the parser no longer yields the committed trees of Props/Witness.v"})
 
     # ---- generated core grammar -------------------------------------------------------------
-    n = 260 if quick else 4000
+    n = 260 if quick else 3000
     stmts = astgen.gen_batch(r, n, (0, 1, 2, 2), shapes=110 if quick else None)
     for s in stmts:
         dist["kinds"][s[0]] = dist["kinds"].get(s[0], 0) + 1
@@ -132,7 +132,7 @@ def exactness_check(pid: str, part: str) -> int:
     all_d = [d for d in installed_dialects() if d != "ansi"]
     dialects = ["ansi"] + (r.sample(all_d, 2) if quick else all_d)
     for d in dialects:
-        sub = list(range(len(stmts))) if (d == "ansi" or not quick) else r.sample(range(len(stmts)), 90)
+        sub = list(range(len(stmts))) if d == "ansi" else r.sample(range(len(stmts)), 90 if quick else 300)
         res = run(records([stmts[i] for i in sub], dialect=d))
         for i, x in zip(sub, res):
             ck.count()
